@@ -294,11 +294,11 @@ func init() {
 			"conditions are bools, ints, strings, nil, collections, isset(), comparisons and 54 opaque conditions with known truthiness (floats incl. fractional and zero, narrow ints, uints, nil/non-nil pointers, interfaces holding false/0/\"\"/nil/0.25, fmt.Stringer/error values holding named zeros, logical forms); "+
 			"non-trivial = if and range both present, or an opaque-kind condition, else-if chain or range-else; plus 120 directed histories executing the same range statements (one Set) over 17 subject kinds of changing kind, incl. Rangers of slice/chan/map kind and Rangers yielding nothing; distinct by feature set", 25000, 1500000, 300)
 	registerProg(c07, "reference-evaluator output monitor over generated scoping programs; caller VarMap inspected after Execute",
-		ruleCommon+"programs mix :=, =, multi-assignment and discard at every depth of if (with let), range (all forms), block, yield with parameters/content and include; the same name is planted in the VarMap, the globals and the built-ins and shadowed locally; loop variables of every ranger kind are captured into outer variables and read after the loop; "+
+		ruleCommon+"programs mix :=, =, multi-assignment and discard at every depth of if (with let), range (all forms), block, yield with parameters/content, include and (a third of them) try/catch with failing actions; the same name is planted in the VarMap, the globals and the built-ins and shadowed locally; loop variables of every ranger kind are captured into outer variables and read after the loop; "+
 			"'.' is printed before, inside and after every construct that may rebind it; isset(exec/includeIfExists(failing template, ctx).x) statements swallow a failure half-way through a context switch; plus 72 directed capture cases (multi-entry maps etc.) checked by self-consistency and 60 rebinding histories (one Set; the name of a built-in rebound in the VarMap and the Set globals between executions, 12 call-site shapes: each must call what the name resolves to now); non-trivial = capture, shadowing, '=', if-let or an explicit context present; distinct by feature set", 25000, 1500000, 300)
 	registerProg(c08, "reference-evaluator output monitor over generated template sets with extends chains and import lists",
 		ruleCommon+"sets have extends chains of depth 0-3, 0-3 library templates imported by any level (libraries import/extend each other), 5 block names shared by all files (parameters with defaults, explicit contexts, content-using blocks with default content), yields with named arguments in random order and omissions, "+
-			"yields nested in range/if/content, content bodies reading caller variables that the block shadows; non-trivial = a block name is defined in >=2 files and is yielded or has a definition site; distinct by feature set", 20000, 800000, 300)
+			"yields nested in range/if/content, content bodies reading caller variables that the block shadows, empty content clauses; a third of the sets contain try/catch with failures (also inside yielded blocks) and the hook's before/after state probes; non-trivial = a block name is defined in >=2 files and is yielded or has a definition site; distinct by feature set", 20000, 800000, 300)
 	registerProg(c13, "reference-evaluator output monitor over generated try/catch programs with failures planted below state-changing constructs",
 		ruleCommon+"try bodies contain failing actions (unknown identifier, bad operand, assignment to undeclared variable, unresolved block, two-variable range over an index-less ranger) at depth <=4 below range (context rebound), if-let, yield with parameters/content, include and inner try, with/without catch and catch variable; "+
 			"a third of the value sites go through a SafeWriter (raw/unsafe); after every try the program prints '.', variables, isset() of names declared inside, and yields content again; 10 directed cases with a catch body executing return (prefix-tolerant: if rendering goes on, the catch variable is gone and variables and '.' are as before); non-trivial = try + failure + a state-changing construct; distinct by feature set", 25000, 1500000, 300)
